@@ -68,6 +68,9 @@ def _gap_has_empty_line_offsets(
     source_bytes: bytes, start: int, end: int, first_newline: int | None = None
 ) -> bool:
     """Check for blank lines using offsets to avoid slice allocations."""
+    # Never scan past the buffer: callers may hand in offsets that belong to a
+    # longer text than the one they share (a file with leading whitespace).
+    end = min(end, len(source_bytes))
     if first_newline is None:
         first_newline = source_bytes.find(b"\n", start, end)
         if first_newline == -1:
